@@ -105,6 +105,7 @@ var grammars = []grammar{
 type op struct {
 	kind    int  // 0 compile, 1 run shared, 2 run own (last compiled by this client), 3 compile and run a machine that nobody keeps
 	debug   bool // run with SetDebug(true)
+	legacy  bool // run through NewCtxFromMach (the XpathNode entry point, nil context node) instead of NewCtxFromCurrent; derived from draws already made, so the tape is unchanged (f21b)
 	gcAt    int  // >0: at the run's gcAt-th data-tree callback the client forces a garbage collection and lets the finalizers run
 	gram    int
 	expr    string
@@ -276,7 +277,11 @@ func runOp(m *xpath.Machine, tree *faulttree.Tree, o op, tag string, yield bool)
 	}
 	cur := tree.Nodes[o.ctx%len(tree.Nodes)]
 	var res *xpath.Result
-	if o.debug {
+	if o.legacy {
+		// the other way into a machine: a context made by NewCtxFromMach. Anything it does with a nil node (a panic included) is
+		// the same in isolation, so the comparison stands; what matters is that two runs of one machine share nothing.
+		res = xpath.NewCtxFromMach(m, nil).Run()
+	} else if o.debug {
 		// a run with the debug trace switched on (the trace itself is not compared; result, error and request trace are)
 		res = xpath.NewCtxFromCurrent(context.Background(), m, cur.Entry(r)).SetDebug(true).Run()
 		if res != nil {
@@ -576,6 +581,10 @@ func (w world) RunCase(t *tape.Tape, st *super.Stats) *super.Violation {
 					o.gcAt = 1 + t.Draw(4)
 				}
 				o.debug = t.Rare(6)
+				o.legacy = !o.debug && o.failAt == 0 && o.gcAt == 0 && o.ctx%4 == 3
+				if o.legacy {
+					inc("reach:run_through_NewCtxFromMach")
+				}
 			case 2:
 				o = op{kind: 2, ctx: t.Draw(len(tree.Nodes))}
 				if t.Rare(3) {
@@ -585,6 +594,10 @@ func (w world) RunCase(t *tape.Tape, st *super.Stats) *super.Violation {
 					o.gcAt = 1 + t.Draw(4)
 				}
 				o.debug = t.Rare(6)
+				o.legacy = !o.debug && o.failAt == 0 && o.gcAt == 0 && o.ctx%4 == 3
+				if o.legacy {
+					inc("reach:run_through_NewCtxFromMach")
+				}
 			}
 			progs[c] = append(progs[c], o)
 		}
